@@ -14,7 +14,8 @@ PROPERTY = "C14"
 GEN = ["Roc"]
 PROPS = ["ScoresVerif/Props/C14.lean"]
 DRIVER_DEPS = ["ScoresVerif.Driver.C14"]
-AUDIT_FILES = ["ScoresVerif/Lemmas/Roc.lean", "ScoresVerif/Model/Roc.lean", "ScoresVerif/Spec/Roc.lean"]
+AUDIT_FILES = ["ScoresVerif/Lemmas/Roc.lean", "ScoresVerif/Lemmas/RocMW1.lean", "ScoresVerif/Lemmas/RocMW.lean",
+               "ScoresVerif/Model/Roc.lean", "ScoresVerif/Spec/Roc.lean"]
 LEVEL = "proof"
 TRUSTED = ["hand-written model Model/Roc.lean of roc_curve_data -> binary_discretise(>=) -> POD/POFD -> -trapezoid; the POD/POFD maps, quotients, weighting/summation frame and the roc call site are regenerated from the source (tools/gen/Roc.py) and proved equal to the model, the rest is "
            "(tied by differential correspondence only, no translator)",
@@ -30,15 +31,19 @@ MANIFEST = dict(
          "(POFD, POD) of 'forecast >= t' by weighted counting over the valid pairs (a forecast equal to t is an event; pairs "
          "with a NaN forecast, observation or weight are not counted; 0/0 is NaN), both coordinates are non-increasing in t and "
          "in [0,1] for non-negative weights and equal 1 at a threshold not above any forecast, AUC equals the trapezoid sum "
-         "and lies in [0,1] for thresholds accepted by the guard. The model is tied to the code by a differential "
+         "and lies in [0,1] for thresholds accepted by the guard, and AUC equals the (weighted) Mann-Whitney probability (ties "
+         "one half) whenever the thresholds contain every forecast value and a value above the largest. The POD/POFD maps, "
+         "quotients, the weighting/summation frame and the roc call site (operator.ge, -1 * trapezoid(pod, pofd)) are "
+         "regenerated from binary_impl.py / roc_impl.py on every run and proved equal to the model. The model is tied to the code by a differential "
          "correspondence (ties with thresholds, NaN, weights, reductions / preserved dims, argument checks); the same "
          "statements and the Mann-Whitney equality (thresholds containing 0, every forecast value and a larger value; weighted "
          "form with weights) are evaluated on the implementation against the Lean counting spec in exact rationals, "
          "exhaustively for all forecast/observation vectors up to length 3 (quick) / 5 (thorough) over a 4-value pool.",
-    note="Trusted: Lean kernel; propext/Classical.choice/Quot.sound; the hand-written model (no translator) tied only by "
+    note="Trusted: Lean kernel; propext/Classical.choice/Quot.sound; the hand-written model, tied by the translator for the POD/POFD maps / "
+         "quotients / call site and otherwise only by "
          "correspondence on dyadic inputs with tolerance 1e-9; SV.Fl (IEEE minus rounding, overflow, signed zero); the "
          "harness groups the cells that are summed per preserved index (gather_dimensions is C01). Not proved, only compared: "
-         "the Mann-Whitney equality (stretch statement kept as a comment), the argument-check model (`raises`). "
+         "the argument-check model (`raises`), the element-wise discretisation code of discretise.py (model `disc`). "
          "Not modelled: dask input (F14, C04), differently ordered coordinates, non-binary observations with check_args=False.",
     technique="Lean 4 theorems over a hand model + differential correspondence + exact counting / Mann-Whitney oracle",
     design="6/C14")
@@ -387,7 +392,7 @@ class Checker:
                     b["cases"] += 1
                     self.ctx.tag("mann-whitney-applicable")
                     if not core.close(auc, sp["mw"]):
-                        self.fail("auc-eq-mann-whitney", c, "auc-vs-mann-whitney", auc, sp["mw"], "auc_eq_mannWhitney_stmt",
+                        self.fail("auc-eq-mann-whitney", c, "auc-vs-mann-whitney", auc, sp["mw"], "auc_eq_mannWhitney",
                                   {"group": list(key), "triples_for_min": tr})
 
 
